@@ -103,7 +103,7 @@ func collect(d *dataTreeNavigator, context Context, remainingMatches *list.List)
 			newCandidate := aggCandidate.Copy()
 			log.Debugf("collectObjectOperation; aggCandidate: %v", NodeToString(aggCandidate))
 
-			newCandidate, err = multiply(multiplyPreferences{AppendArrays: false})(d, context, newCandidate, splatCandidate)
+			newCandidate, err = multiply(multiplyPreferences{AppendArrays: false, TraversePrefs: traversePreferences{DontFollowAlias: true}})(d, context, newCandidate, splatCandidate)
 
 			if err != nil {
 				return Context{}, err
